@@ -9,6 +9,7 @@ DEST = 'out.dat'
 WRITERS = {'ds9': 'regions/io/ds9/write.py::_write_ds9', 'crtf': 'regions/io/crtf/write.py::_write_crtf',
            'fits': 'regions/io/fits/write.py::_write_fits'}
 FAILS = ('none', 'bad_region_first', 'bad_region_last', 'bad_option', 'late_failing_region', 'late_failing_option')
+NOT_A_FAILURE = ('none', 'empty_list', 'all_skipped')      # lists that serialise to (nearly) nothing are written like any other
 
 
 def preexisting(path, content='OLD CONTENT'):
@@ -27,6 +28,10 @@ def regions_for(B, fmt, fail):
     frame = 'image' if fmt == 'fits' else 'fk5'
     # a label outside ASCII is ordinary text (region files are written in the platform's text encoding, UTF-8 here)
     good = [mk(B, 'circle', 'g0', frame, {'text': '\u03b1 Cen'}), mk(B, 'ellipse', 'g1', frame)]
+    if fail == 'empty_list':
+        return []
+    if fail == 'all_skipped':
+        return [compound_of(B, 'skipped')] if fmt == 'ds9' else []
     if fail == 'bad_region_first':
         return [bad_region(B, fmt)] + good
     if fail == 'bad_region_last':
@@ -105,8 +110,9 @@ def existed(events, exists):
 class write_never_clobbers_or_half_writes:
     cases = {f + '-' + ('existing' if ex else 'unknown') + '-' + ('overwrite' if ow else 'keep') + '-' + fl:
              {'fmt': f, 'exists': ex, 'overwrite': ow, 'fail': fl}
-             for f in ('ds9', 'crtf', 'fits') for ex in (True, False) for ow in (False, True) for fl in FAILS
-             if not (f == 'ds9' and fl.startswith('late_')) and not (f == 'fits' and fl == 'late_failing_region')}
+             for f in ('ds9', 'crtf', 'fits') for ex in (True, False) for ow in (False, True) for fl in FAILS + ('empty_list', 'all_skipped')
+             if not (f == 'ds9' and fl.startswith('late_')) and not (f == 'fits' and fl == 'late_failing_region')
+             and not (fl in ('empty_list', 'all_skipped') and f == 'fits') and not (fl == 'all_skipped' and f != 'ds9')}
 
     def setup(B, fmt='ds9', exists=True, overwrite=False, fail='none'):
         if exists:
@@ -127,11 +133,11 @@ class write_never_clobbers_or_half_writes:
         'refused_or_failed_write_leaves_destination_untouched': lambda events, result:
             result == 'ok' or len(destination_events(events)) == 0,
         'existing_content_kept_when_not_written': lambda exists, result: result == 'ok' or (not exists) or content_of(DEST) == 'OLD CONTENT',
-        'a_failing_element_or_option_fails_the_write': lambda fail, result: fail == 'none' or result != 'ok',
+        'a_failing_element_or_option_fails_the_write': lambda fail, result: fail in NOT_A_FAILURE or result != 'ok',
         'success_writes_exactly_the_serialisation': lambda fmt, regions, result:
             result != 'ok' or (text_equal(content_of(DEST), serialize(fmt, regions)) if fmt != 'fits' else fits_same(content_of(DEST), regions)),
         'good_input_and_free_destination_succeeds': lambda exists, overwrite, fail, events, result:
-            fail != 'none' or (existed(events, exists) and not overwrite) or result == 'ok',
+            fail not in NOT_A_FAILURE or (existed(events, exists) and not overwrite) or result == 'ok',
     }
 
 
